@@ -131,6 +131,7 @@ def run_history(history):
     prev_kind = None
     hits0 = seams.cache_hits()
     last_sid = None
+    canaries_left = 2
     for op in history["ops"]:
         plog = []
         for p in op.get("pre", []):
@@ -165,6 +166,12 @@ def run_history(history):
         last_sid = op["sid"]
         res["plog"] = plog
         res["settings_as_owned"] = _owned(sess)
+        if not res["settings_as_owned"] and sess.spec["kind"] != "cli" and res["status"] in ("ok", "refused") and canaries_left > 0:
+            # Polar itself changed a global option during this step.  What a user who set the options once would see next:
+            # a small fixed analysis performed right now, without touching the options again.
+            canaries_left -= 1
+            res["canary"] = run_canaries(cap)
+            res["canary_options"] = sess.spec.get("options") or {}
         results.append(res)
         if op["step"] in ("parse", "file:0", "main"):
             programs_seen.append(sess.spec.get("pid", op["sid"]))
@@ -175,6 +182,25 @@ def run_history(history):
             break
     return {"status": "done", "results": results, "fired": fired, "monitors": monitors, "contexts": contexts,
             "cache_hits": seams.cache_hits() - hits0, "counter_end": seams.counter_get(), "hashseed": os.environ.get("PYTHONHASHSEED")}
+
+
+CANARIES = [
+    {"kind": "lib", "program": {"path": "documentation/loops/fibonacci.prob"}, "goals": [{"monom": "a", "kind": "raw"}], "api": "common"},
+    {"kind": "lib", "program": {"path": "documentation/loops/geometric.prob"}, "goals": [{"monom": "x", "kind": "raw"}], "api": "common"},
+    {"kind": "lib", "program": {"path": "tests/benchmarks/mixed_trigonometric.prob"}, "goals": [{"monom": "a1", "kind": "raw"}], "api": "common"},
+    {"kind": "lib", "program": {"path": "tests/benchmarks/else_transformation.prob"}, "goals": [{"monom": "x", "kind": "raw"}], "api": "common"},
+]
+
+
+def run_canaries(cap):
+    out = []
+    for spec in CANARIES:
+        s = make_session(dict(spec, options={}))
+        steps = {}
+        for name in s.step_names():
+            steps[name] = run_step(s, name, cap, apply=False)
+        out.append(steps)
+    return out
 
 
 def _owned(sess):
